@@ -476,17 +476,16 @@ mk=lambda:{algo}
 E={events};R={rewards}
 a=mk();a.setup(S);P=[];J=[];F=[]
 for e in E:
-  if e=='p':P.append(a.propose());J.append(pg.to_json_str(P[-1]))
+  if e=='p':P.append(a.propose()){snapshot}
   else:a.feedback(P[e],R[e]);F.append(e)
 H=pg.from_json_str(pg.to_json_str([[d,R[i] if i in F else None] for i,d in enumerate(P)]))
-H=[({pick},r) for i,(d,r) in enumerate(H)]
-b=mk();b.setup(S);{recover}
+{pick}b=mk();b.setup(S);{recover}
 """
 
 _W_PICK = {
-    'crash': 'd',
-    'proposal': 'pg.from_json_str(J[i])',
-    'mixed': 'pg.from_json_str(J[i]) if i==F[-1] else d',
+    'crash': '',
+    'proposal': 'H=[(pg.from_json_str(J[i]),r) for i,(d,r) in enumerate(H)]\n',
+    'mixed': 'H=[(pg.from_json_str(J[i]) if i==F[-1] else d,r) for i,(d,r) in enumerate(H)]\n',
 }
 
 _G = "getattr(g,'generator',g)"
@@ -523,7 +522,8 @@ def _witness(space_expr, algo_expr, snap, variant, check, chunk=None, m=0):
   w = _W_HEAD.format(space=space_expr, algo=algo_expr,
                      events=repr(snap['events']).replace(' ', ''),
                      rewards=repr(snap['rewards']).replace(' ', ''),
-                     pick=_W_PICK[variant], recover=rec)
+                     pick=_W_PICK[variant], recover=rec,
+                     snapshot=('' if variant == 'crash' else ';J.append(pg.to_json_str(P[-1]))'))
   if check == 'continuation':
     w += _W_CONT.format(m=m)
   else:
